@@ -1,12 +1,12 @@
 CONSTANTS
-  W = 1
+  W = 3
   Limit = 1
   L = 1
-  Uds = {1}
-  MaxConns = 2
-  MaxFaults = 0
-  MaxCmds = 2
-  MaxErrs = 1
+  Uds = {}
+  MaxConns = 4
+  MaxFaults = 1
+  MaxCmds = 0
+  MaxErrs = 0
   MaxBare = 0
   WakeAt = 2
   IgnoreUnknownIdx = TRUE
@@ -24,10 +24,8 @@ CONSTANTS
   ResetSeparate = FALSE
   JumpToFirstAvailable = FALSE
   ReportOnlyIfBitSet = FALSE
-  ResendWithoutCheck = FALSE
+  ResendWithoutCheck = TRUE
 SPECIFICATION Spec
 VIEW View
-INVARIANTS TypeOK C01_Conservation C01_ServedOnce C01_NoSilentDrop C02_Bound C02_NoForcedSend C03_NoLostWake C04_RoundRobin C04_BitsTrueWhenCalm C05_ListenerLive C05_UdsReachable C05_ConnErrNoDelay C05_TimerHasTimeout C08_NoPanic C08_NoSpin C08_NoGhostBit C08_NoDupHandles C08_FaultReportedOnce C08_NoLostIndex LogInit
 PROPERTIES Steps
-ACTION_CONSTRAINT LogEdge
 CHECK_DEADLOCK FALSE
